@@ -19,12 +19,12 @@ import (
 
 func TestMain(m *testing.M) {
 	vcore.Init("C12", "exploration",
-		"rapid single-session histories (<= 20 messages, then deletion) of Create/Update/Remove PDR with arbitrary URR lists over 4 URRs and 5 PDRs (ids 0-4), Create/Remove/Query URR; URRs shared by several PDRs; associations created at PDR creation and added or moved by Update PDR; Update PDRs the session cannot apply (PDR never created, removed earlier, or removed by the same message) next to IEs that cause reports. "+
+		"rapid single-session histories (<= 20 messages, then deletion) of Create/Update/Remove PDR with arbitrary URR lists over 4 URRs and 5 PDRs (ids 0-4), Create/Remove/Query URR; URRs shared by several PDRs; associations created at PDR creation and added or moved by Update PDR; Update PDRs the session cannot apply (PDR never created, removed earlier, or removed by the same message) next to IEs that cause reports; Create PDRs for PDRs that exist (refused by the data plane, the installed rule and its URR list stay). "+
 			"Oracle: reference model = current URR list per PDR, reference count = number of PDRs whose list names the URR; expected usage-report multiset in the response to the very request: Remove URR -> one TERMR report; Remove PDR / Update PDR dropping the last reference -> one TERMR report for that URR; "+
 			"Query URR -> one IMMER report (and not TERMR); Deletion -> one TERMR report per existing URR; nothing else, nothing twice - whatever cause the response carries. "+
 			"non-trivial = the history contains an association added by Update PDR that is later dissolved, or a URR shared by >= 2 PDRs whose last reference disappears; distinct by history",
 		"model data plane returns one usage report per query/remove of an existing URR",
-		"not generated (ambiguous or protocol violations, counted as excluded): Update PDR without URR IEs on a PDR that has URRs; PDRs naming URRs that do not exist; re-creating a live PDR id; touching the same URR by two report-causing IEs in one message; re-creating a URR id while a PDR still names it")
+		"not generated (ambiguous or protocol violations, counted as excluded): Update PDR without URR IEs on a PDR that has URRs; PDRs naming URRs that do not exist; touching the same URR by two report-causing IEs in one message; re-creating a URR id while a PDR still names it")
 	vcore.Main(m)
 }
 
@@ -79,6 +79,7 @@ func setOf(ids []uint32) map[uint32]bool {
 type stats struct {
 	updAssocDissolved bool
 	sharedLastGone    bool
+	refusedCreate     bool // a Create PDR for a PDR the session has
 	unknownUpdWithEnd bool // a message with an Update PDR the session cannot apply and a report due from another IE
 	excluded          map[string]int
 }
@@ -116,6 +117,10 @@ func (m *model) apply(rules []stack.RuleOp, stt *stats) (termr, immer map[uint32
 	}
 	for _, ru := range rules {
 		if ru.Kind == "PDR" && ru.Verb == "create" {
+			if _, exists := m.pdr[ru.ID]; exists {
+				stt.refusedCreate = true
+				continue // refused by the data plane: the installed PDR keeps its list
+			}
 			m.pdr[ru.ID] = setOf(ru.URRs)
 			m.via[ru.ID] = map[uint32]string{}
 			for _, u := range ru.URRs {
@@ -248,7 +253,7 @@ func gen(t *rapid.T) Case {
 		touchedP := map[uint32]bool{}
 		nr := rapid.IntRange(1, 4).Draw(t, "nrules")
 		for j := 0; j < nr; j++ {
-			switch rapid.SampledFrom([]string{"createurr", "createurr+pdr", "removeurr", "query", "queryremove", "createpdr", "removepdr", "updatepdr", "updatepdr", "updatepdr", "updatepdr-unknown"}).Draw(t, "rule") {
+			switch rapid.SampledFrom([]string{"createurr", "createurr+pdr", "removeurr", "query", "queryremove", "createpdr", "removepdr", "updatepdr", "updatepdr", "updatepdr", "updatepdr-unknown", "createpdr-again"}).Draw(t, "rule") {
 			case "createurr", "createurr+pdr":
 				u := uint32(rapid.IntRange(1, 4).Draw(t, "urr"))
 				if urr[u] || urrOp[u] || touched[u] {
@@ -341,6 +346,24 @@ func gen(t *rapid.T) Case {
 				delete(pdr, p)
 				touchedP[p] = true
 				rules = append(rules, stack.RuleOp{Verb: "remove", Kind: "PDR", ID: p})
+			case "createpdr-again":
+				// a Create PDR for a PDR the session has: the data plane refuses it and keeps the installed rule, whose URR list
+				// therefore stays the PDR's current list, whatever list the refused request named
+				p := uint32(rapid.IntRange(0, 4).Draw(t, "pdr"))
+				if _, ok := pdr[p]; !ok || touchedP[p] {
+					continue
+				}
+				inMsg := false
+				for _, ru := range rules {
+					if ru.Kind == "PDR" && ru.ID == p {
+						inMsg = true
+					}
+				}
+				if inMsg {
+					continue
+				}
+				touchedP[p] = true
+				rules = append(rules, stack.RuleOp{Verb: "create", Kind: "PDR", ID: p, Prec: 4, URRs: pickURRs(false)})
 			case "updatepdr-unknown":
 				// an Update PDR the session cannot apply - the PDR was never created, was removed earlier, or is removed by this
 				// very message (removals are applied first): whatever the answer's cause, the reports that the other IEs of
@@ -588,6 +611,9 @@ func account(c Case, s stats) {
 	}
 	if s.sharedLastGone {
 		vcore.E.Class("shared_urr_last_reference_gone")
+	}
+	if s.refusedCreate {
+		vcore.E.Class("create_pdr_for_a_pdr_that_exists")
 	}
 	if s.unknownUpdWithEnd {
 		vcore.E.Class("report_due_in_a_message_with_an_update_pdr_that_cannot_be_applied")
